@@ -60,6 +60,9 @@ func destinationTables(c *Ctx) {
 		imports := &interp.MapV{Keys: []interp.Value{interp.Lit(dep), interp.Lit("example.test/govendor/dep")}, Vals: []interp.Value{&interp.Ptr{Elem: imp}, &interp.Ptr{Elem: imp2}}}
 		v := mkS("Var", map[string]interp.Value{"moqPkgPath": interp.Lit(tc.moqPkgPath), "imports": imports, "Name": interp.Lit("x")})
 		got, err := m.CallFunc(token.NoPos, pq, v, []interp.Value{pkgOpaque(tc.pkgPath, "p")})
+		if err == nil && m.Choices.Forked() {
+			err = fmt.Errorf("the qualifier decision depends on something the constant inputs do not fix (%s)", m.Choices.Describe())
+		}
 		gs := interp.Show(got)
 		if s, ok := got.(*interp.Sym); ok {
 			gs = s.Flat()
@@ -89,6 +92,9 @@ func destinationTables(c *Ctx) {
 		reg := mkS("Registry", map[string]interp.Value{"moqPkgPath": interp.Lit(tc.moqPkgPath), "aliases": &interp.MapV{Keys: []interp.Value{interp.Lit(dep), interp.Lit("example.test/govendor/dep")}, Vals: []interp.Value{interp.Lit("srcalias"), interp.Lit("srcalias")}}, "imports": &interp.MapV{}})
 		p := pkgOpaque(tc.pkgPath, "p")
 		got, err := m.CallFunc(token.NoPos, ai, &interp.Ptr{Elem: reg}, []interp.Value{p})
+		if err == nil && m.Choices.Forked() {
+			err = fmt.Errorf("the registration decision depends on something the constant inputs do not fix (%s)", m.Choices.Describe())
+		}
 		if err != nil {
 			run.Undecided("G-DEST/addimport", tc.desc, prog.Pos(ai.Pos()), "AddImport cannot be evaluated: "+err.Error())
 			continue
